@@ -289,9 +289,14 @@ class Interp(EvalMixin, BuiltinMixin):
         concrete = all(s.items is not None for s in seqs) or \
             all(isinstance(list_len(s), int) for s in seqs)
         if concrete:
-            n = min(list_len(s) for s in seqs)
-            # iterate over a snapshot of the element values for concrete lists
-            for k in range(n):
+            # Python iterates a list by a LIVE index: an element removed or inserted by the body shifts what the next step sees
+            k = -1
+            while True:
+                k += 1
+                if k >= min(list_len(s) for s in seqs):
+                    break
+                if k > 100000:
+                    raise EngineError("runaway concrete loop")
                 cur = []
                 for s in seqs:
                     if s.items is not None:
